@@ -3,6 +3,8 @@
 Packets are generated from LOGICAL values (header fields, optional adaptation-field fields with
 contents, stuffing, payload) and serialised by the Coq-extracted Spec serialiser (`ser.pkt` of
 modelexec, Spec/Iso13818Pkt.v), so "well-formed" is exactly the wf_lpkt of the theorems."""
+import atexit
+import subprocess
 import vlib
 from vlib import Case, hx
 
@@ -20,6 +22,9 @@ RULE = ("well-formed packets from logical records (adaptation_field_control 1/2/
         "field, reserved control 00) are fidelity cases")
 EXHAUSTIVE = False
 ASSUMPTIONS = ["a Packet is a [188]byte value; data slices have cap = len",
+               "K2 (known finding): SetPayload with empty data leaves control 11 / length 183, which is not a well-formed packet "
+               "(C02_set_payload_result_wf_refuted); every deciding pay.set result is judged by spec.pkt.wf on the real bytes, the "
+               "set-empty kind fails that judge and is matched by the K2 entry of known_findings.json",
                "views vs copies (aliasing) are observed by goexec only: function Payload/Header return views, method Payload a copy",
                "the model follows /root/work/repo-fixed (F6, F7 repaired, C05 guards)"]
 PARTIAL = ("Create with option lists that contain a SetPayload closure (other than the CreatePacketWithPayload shape): only the header "
@@ -152,6 +157,7 @@ def gen(rng, tier):
     pk = serialise(ls)
     for l, (p, wf) in zip(ls, pk):
         assert wf and len(p) == 188, (l, p)
+        assert is_wf_packet(p), ("the byte-level judge spec.pkt.wf rejects a packet serialised from a well-formed logical packet", l, p)
         afc = l["hdr"][6]
         out.append(Case("pay.view %s" % hx(p), kind="view-afc%d" % afc, theorem="C02_partition"))
         if afc == 2:
@@ -267,10 +273,69 @@ def gen_alias(rng, thorough, packets, pids, ptss):
     return out
 
 
+# ---- the judge "is a well-formed packet" (Coq: Spec/Iso13818Recog.v wf_pktb, op spec.pkt.wf of modelexec, sound by
+#      C02_wf_recogniser_sound), asked through one persistent modelexec coprocess
+_judge = None
+_judge_cache = {}
+
+
+def is_wf_packet(b):
+    global _judge
+    key = bytes(b)
+    if key in _judge_cache:
+        return _judge_cache[key]
+    if _judge is None or _judge.poll() is not None:
+        _judge = subprocess.Popen([vlib.MODELEXEC], stdin=subprocess.PIPE, stdout=subprocess.PIPE, text=True, bufsize=1)
+        atexit.register(lambda p=_judge: p.kill())
+    _judge.stdin.write("spec.pkt.wf %s\n" % hx(key))
+    _judge.stdin.flush()
+    r = _judge.stdout.readline().strip()
+    if r not in ("0", "1"):
+        raise RuntimeError("spec.pkt.wf answered %r" % r)
+    if len(_judge_cache) > 200000:
+        _judge_cache.clear()
+    _judge_cache[key] = r == "1"
+    return r == "1"
+
+
+def result_packet(reply):
+    """the 188 bytes after the call, from a pay.set reply  [ x<packet> (count|error) getters flag ]"""
+    try:
+        v = vlib.parse_val(reply)
+        return v[0] if isinstance(v[0], (bytes, bytearray)) and len(v[0]) == 188 else None
+    except Exception:
+        return None
+
+
 def oracle(case, real, model):
-    if real in ("[8]", "[9]") or model in ("[8]", "[9]"):
+    if real in ("[-8888]", "[-9999]") or model in ("[-8888]", "[-9999]"):
         return "executor rejected the request (malformed case line): real %s model %s" % (real, model)
+    # "... so the packet stays well-formed": judged on the REAL bytes of every deciding SetPayload case
+    # (the replay of the fixed finding F6 is an empty-data call: its bytes are compared, its well-formedness is K2's business)
+    if case.decides and case.line.startswith("pay.set ") and case.kind != "F6-set-empty-bytes":
+        p = result_packet(real)
+        if p is None:
+            return "SetPayload on a well-formed packet: the reply carries no 188-byte packet: %s" % real[:120]
+        if not is_wf_packet(p):
+            return ("the packet SetPayload leaves is NOT a well-formed transport packet (judge spec.pkt.wf = Spec/Iso13818Recog.v wf_pktb: "
+                    "adaptation_field_control %d%d, adaptation_field_length %d)" % (p[3] >> 5 & 1, p[3] >> 4 & 1, p[4]))
     return None
+
+
+def known_match(entry, case, real, model):
+    """K2 and nothing else: SetPayload with EMPTY data, the real result is exactly what the model requires (C02_set_payload_empty),
+    it is control 11 with adaptation_field_length 183, and its SOLE defect is the payload flag: the same bytes with control 10
+    are a well-formed packet"""
+    if entry.get("id") != "K2":
+        return False
+    f = case.line.split()
+    if len(f) != 3 or f[0] != "pay.set" or f[2] != "x" or real != model:
+        return False
+    p = result_packet(real)
+    if p is None or (p[3] & 0x30) != 0x30 or p[4] != 183 or is_wf_packet(p):
+        return False
+    q = bytearray(p); q[3] &= 0xEF
+    return is_wf_packet(bytes(q))
 
 
 def shrink(c):
